@@ -58,6 +58,9 @@ func (g *generator) slots(typ string, depth, budget int) []slot {
 		out = append(out, slot{variants: []tmpl{{nodes: []*Node{{K: 'f', Name: "__typename"}}, size: 1}}})
 	}
 	for _, fd := range td.Fields {
+		if fd.NoBase {
+			continue
+		}
 		var s slot
 		if isComposite(fd.Ret) {
 			if depth > 1 && budget > 1 {
